@@ -777,6 +777,7 @@ def o_C17(sc):
     P = quiet(spk.spike_sync_profile, L, **mt, **kw)
     prof = {float(x): (y, mp) for x, y, mp in list(zip(P.x, P.y, P.mp))[1:-1]}
     mtq = Fr(sc['kw'].get('max_tau') or 0)
+    allcnt = []
     if sc['kw'].get('mrts') in ('auto', -1):
         # 'auto' stands for the threshold pooled over ALL trains of the list (as in the multivariate profile)
         from pyspike.isi_lengths import default_thresh
@@ -804,6 +805,14 @@ def o_C17(sc):
                 y, mp = prof[float(x)]
                 if not feq(y / mp, c / (N - 1)):
                     return 'C17 profile value at %s is %r/%r, fraction of coincident trains is %d/%d' % (x, y, mp, c, N - 1)
+        allcnt.append(dict(zip(s, cnt)))
+    # at EVERY spike time (shared ones included) the profile carries the summed counts of the trains
+    # spiking there over (number of those trains)*(N-1)  (theorem C17.multi_profile_at_time)
+    for x in sorted(set(v for s_, _, _ in sc['trains'] for v in s_)):
+        tot = sum(c[x] for c in allcnt if x in c); na = sum(1 for c in allcnt if x in c)
+        y, mp = prof[float(x)]
+        if not feq(y, tot) or not feq(mp, na * (N - 1)):
+            return 'C17 profile at %s is (%r,%r), summed counts / multiplicity of the %d trains spiking there: (%d,%d)' % (x, y, mp, na, tot, na * (N - 1))
     thr2 = sc.get('thr2')
     if thr2 is not None and thr2 >= thr:
         k2 = quiet(spk.filter_by_spike_sync, L, float(thr2), **mt, **kw)
